@@ -17,13 +17,26 @@ pub struct LspProject {
     wrapped: Box<dyn Project + Send>,
 }
 
+/// Returns the path of the file that the URL is for.
+///
+/// Only a URL having the scheme "file" is for a file. A URL having another
+/// scheme can have the same path and is a different document (for example
+/// "git:/home/user/main.st" is a revision of the file in source control).
+#[allow(clippy::result_unit_err)]
+fn file_path(url: &Url) -> Result<std::path::PathBuf, ()> {
+    if url.scheme() != "file" {
+        return Err(());
+    }
+    url.to_file_path()
+}
+
 impl LspProject {
     pub fn new(project: Box<dyn Project + Send>) -> Self {
         Self { wrapped: project }
     }
 
     pub(crate) fn initialize(&mut self, folder: &WorkspaceFolder) {
-        let path = folder.uri.to_file_path();
+        let path = file_path(&folder.uri);
         if let Ok(path) = path {
             self.wrapped.initialize(&path);
         } else {
@@ -32,7 +45,7 @@ impl LspProject {
     }
 
     pub(crate) fn change_text_document(&mut self, url: &Url, content: String) {
-        let path = url.to_file_path();
+        let path = file_path(url);
         if let Ok(path) = path {
             let file_id = FileId::from_path(&path);
             self.wrapped.change_text_document(&file_id, content);
@@ -42,7 +55,7 @@ impl LspProject {
     }
 
     pub(crate) fn tokenize(&self, url: &Url) -> Result<Vec<SemanticToken>, Vec<Diagnostic>> {
-        let path = url.to_file_path();
+        let path = file_path(url);
         if let Ok(path) = path {
             let file_id = FileId::from_path(&path);
 
@@ -109,7 +122,7 @@ impl LspProject {
     }
 
     pub(crate) fn semantic(&mut self, url: &Url) -> Vec<lsp_types::Diagnostic> {
-        let path = url.to_file_path();
+        let path = file_path(url);
         if let Ok(path) = path {
             let file_id = FileId::from_path(&path);
             let semantic_result = self.wrapped.semantic();
